@@ -79,13 +79,18 @@ func ruleConstraintNames(c *core.Ctx) {
 	seen := map[string]bool{}
 	info := pk.TypesInfo
 	// the constraint name a fact tests: `<x>.GetConstraint() == <const>` holding positively
+	var curBody *ast.BlockStmt
 	constraintOf := func(f xfact) (string, bool, bool) {
 		be, ok := f.Cond.(*ast.BinaryExpr)
 		if !ok || be.Op != token.EQL || !f.Positive {
 			return "", false, false
 		}
 		for _, pair := range [][2]ast.Expr{{be.X, be.Y}, {be.Y, be.X}} {
-			call, ok := ast.Unparen(pair[0]).(*ast.CallExpr)
+			side := ast.Unparen(pair[0])
+			if curBody != nil {
+				side = ast.Unparen(resolveLocal(info, curBody, side))
+			}
+			call, ok := side.(*ast.CallExpr)
 			if !ok {
 				continue
 			}
@@ -103,6 +108,7 @@ func ruleConstraintNames(c *core.Ctx) {
 			if !ok || fd.Body == nil {
 				continue
 			}
+			curBody = fd.Body
 			for _, call := range callsTo(info, fd.Body, func(f *types.Func) bool { return strings.HasPrefix(f.Name(), "NewErr") }) {
 				for _, ft := range xfactsAt(info, fd.Body, call.Pos()) {
 					name, isConst, isTest := constraintOf(ft)
